@@ -11,9 +11,10 @@ mvars == <<vars, hist>>
 OpAdd(k, pats, mx) == [op |-> "add", k |-> k, pats |-> pats, mx |-> mx]
 OpGet(c)           == [op |-> "get", k |-> c, pats |-> {}, mx |-> 0]
 
-AddH == \E k \in AddSet, pats \in PatSets, mx \in BudSet :
-            AddFilter(k, pats, mx) /\ hist' = Append(hist, OpAdd(k, pats, mx))
-GetH == \E c \in GetSet : GetFilters(c) /\ hist' = Append(hist, OpGet(c))
+AddOne(k, pats, mx) == AddFilter(k, pats, mx) /\ hist' = Append(hist, OpAdd(k, pats, mx))
+GetOne(c)           == GetFilters(c) /\ hist' = Append(hist, OpGet(c))
+AddH == \E k \in AddSet, pats \in PatSets, mx \in BudSet : AddOne(k, pats, mx)
+GetH == \E c \in GetSet : GetOne(c)
 InitH == InitHist /\ hist = <<>>
 SpecH == InitH /\ [][AddH \/ GetH]_mvars
 
